@@ -63,4 +63,30 @@ META = {
     design_ref='DESIGN.md 6/C19',
     note='Retry uses zero intervals here (timing is C12). DelayOnError is exercised on fail^k sequences only (no failure after a success on the same message).',
     technique='TLA+ operator algebra of middlewares evaluated by TLC, used as oracle in trace validation of real compositions'),
+ 'C04': dict(
+    text='GoChannelImpl.tla models Publish/Subscribe/tear-down/send loop/Close with Go\'s writer-preferring RWMutex, the topic mutex and the sending lock exactly; TLC checks '
+         'exhaustively (volatile and persistent configurations) that every (message, subscription) pair gets at most one sender, deliveries repeat only after a Nack, only '
+         'own-topic messages arrive and that in terminal states every live subscription acked everything it was owed; persisting outside the lock is rejected. Real '
+         'GoChannels are driven through small configurations exhaustively, forced Publish/Subscribe overlaps and random programs; histories (publish/subscribe start and end, '
+         'every receipt with content, copy freshness and context, every Ack/Nack) are validated by TLC against GoChannelAbs.tla',
+    design_ref='DESIGN.md 6/C04', note="The abstract oracle (GoChannelAbs.tla) constrains only API-observable events; linearization points are searched by TLC (volatile mode) or taken eagerly where their order is provably immaterial (persistent mode). Bounded: design model 2 publishers x 2 subscriptions x 2 messages; harness programs up to 14 subscriptions.", technique='TLC model checking of an implementation-shaped TLA+ model + trace validation of recorded histories against an abstract TLA+ spec'),
+ 'C05': dict(
+    text='The design model proves OneUnsettled, BlockingReturn and absence of stuck calls incl. the consumer-republishes-with-pending-Subscribe schedule (the legacy design that '
+         'held the locks while waiting is rejected: dead-lock found in 135 states), with PubsReturn under fairness. The abstract trace spec makes a receipt with another '
+         'unsettled message, and a blocking Publish returning before every certainly-registered subscription acked, unexplainable; consumers that try to read ahead, never ack, '
+         'nack, or republish are run against buffers 0, 1, 5',
+    design_ref='DESIGN.md 6/C05', note="The abstract oracle (GoChannelAbs.tla) constrains only API-observable events; linearization points are searched by TLC (volatile mode) or taken eagerly where their order is provably immaterial (persistent mode). Bounded: design model 2 publishers x 2 subscriptions x 2 messages; harness programs up to 14 subscriptions.", technique='TLC model checking (safety + liveness) of the locking design + trace validation of recorded histories'),
+ 'C07': dict(
+    text='Design model with Close and cancel: NoPanic (close of closed / send on closed channel, nil-map write, subscriber not found), AfterClose, NoStuckCall over >1M states '
+         '(quick) / 2.3M + liveness (thorough); the legacy nil-log design is rejected. Harness: pairwise enumeration of every hook point of Publish / send loop / Subscribe incl. '
+         'replay / tear-down / unsubscribe against {Close, double Close, cancel, Publish, Subscribe}, bare and behind 1-2 MessageTransform decorators, unread channels, 2 concurrent '
+         'closers; every run ends with Close, post-Close probes, a check that all output channels were closed at the instant Close returned (hook observers) and a goroutine-leak '
+         'check by pprof labels; the thorough tier builds with -race',
+    design_ref='DESIGN.md 6/C07', note="The abstract oracle (GoChannelAbs.tla) constrains only API-observable events; linearization points are searched by TLC (volatile mode) or taken eagerly where their order is provably immaterial (persistent mode). Bounded: design model 2 publishers x 2 subscriptions x 2 messages; harness programs up to 14 subscriptions. A crash of the process inside the code under test (fatal error / unrecovered panic) is reported as a violation.", technique='TLC model checking of Close/cancel interleavings + pairwise hook-point fault enumeration with trace validation'),
+ 'C11': dict(
+    text='Persistent configuration of the design model: OneSenderPerPair and terminal completeness for all interleavings of 2 publishers and a late subscription; the '
+         'persist-outside-the-lock mutant is rejected. Harness: subscriptions before/during/after publishes (single and batch), forced overlaps at every hook point between '
+         'persisting, sending, locking, replaying, registering, random programs and prime-sized backlogs (up to 4099 in thorough); the abstract spec owes each (subscription, '
+         'message) pair exactly once, a second receipt without Nack or a missing one at quiescence is rejected',
+    design_ref='DESIGN.md 6/C11', note="The abstract oracle (GoChannelAbs.tla) constrains only API-observable events; linearization points are searched by TLC (volatile mode) or taken eagerly where their order is provably immaterial (persistent mode). Bounded: design model 2 publishers x 2 subscriptions x 2 messages; harness programs up to 14 subscriptions.", technique='TLC model checking of replay/registration atomicity + trace validation with an exactly-once oracle'),
 }
